@@ -416,7 +416,8 @@ Record obs := {
   o_auth : list (list N);
   o_roll : N;
   o_fired : list N;          (* hooks (by birth step) that ran when the events were emitted *)
-  o_probe : list N           (* attempts (by step) whose health-check workers probed the backend *)
+  o_probe : list N;          (* attempts (by step) whose health-check workers probed the backend *)
+  o_ids : list N             (* casket.Instances() in list order: the configuration each entry was made from *)
 }.
 
 Definition res_code (r : outcome) : N := match r with ROk => 0 | RErr => 1 | RHang => 3 end.
@@ -465,7 +466,8 @@ Definition predict (r : outcome) (roll : bool) (g : gstate) : obs :=
      o_auth := map auth_view (g_insts g);
      o_roll := if roll && is_ok r then roll_view g else 0;
      o_fired := g_hooks g;
-     o_probe := dedup (g_probers g) |}.
+     o_probe := dedup (g_probers g);
+     o_ids := map i_cfg (g_insts g) |}.
 
 Definition lN_eqb := list_beq N.eqb.
 Definition llN_eqb := list_beq lN_eqb.
@@ -474,7 +476,7 @@ Definition obs_agree (m o : obs) : bool :=
   (o_res m =? o_res o) && (o_ninst m =? o_ninst o) && lN_eqb (o_hooks m) (o_hooks o)
   && Nat.eqb (length (o_socks m)) (length (o_socks o)) && (o_fds m =? o_fds o)
   && llN_eqb (o_sites m) (o_sites o) && llN_eqb (o_auth m) (o_auth o) && (o_roll m =? o_roll o)
-  && lN_eqb (o_fired m) (o_fired o) && lN_eqb (o_probe m) (o_probe o).
+  && lN_eqb (o_fired m) (o_fired o) && lN_eqb (o_probe m) (o_probe o) && lN_eqb (o_ids m) (o_ids o).
 
 (* the order in which startServers walks the servers is the iteration order of a Go map: when a
    configuration contains the busy address, every position of it among the others is possible *)
@@ -525,17 +527,30 @@ Fixpoint accepts (step : N) (h : list (op * bool)) (os : list obs) (states : lis
 Definition frame (a b : obs) : bool :=
   (o_ninst a =? o_ninst b) && lN_eqb (o_hooks a) (o_hooks b) && lN_eqb (o_socks a) (o_socks b)
   && (o_fds a =? o_fds b) && llN_eqb (o_sites a) (o_sites b) && llN_eqb (o_auth a) (o_auth b)
-  && lN_eqb (o_fired a) (o_fired b) && lN_eqb (o_probe a) (o_probe b).
+  && lN_eqb (o_fired a) (o_fired b) && lN_eqb (o_probe a) (o_probe b) && lN_eqb (o_ids a) (o_ids b).
 
 (* indistinguishable from the run in which the attempts on invalid configurations never happened *)
 Definition as_if (a r : obs) : bool :=
   (o_res a =? o_res r) && (o_ninst a =? o_ninst r) && lN_eqb (o_hooks a) (o_hooks r)
   && Nat.eqb (length (o_socks a)) (length (o_socks r)) && (o_fds a =? o_fds r)
   && llN_eqb (o_sites a) (o_sites r) && llN_eqb (o_auth a) (o_auth r) && (o_roll a =? o_roll r)
-  && lN_eqb (o_fired a) (o_fired r) && lN_eqb (o_probe a) (o_probe r).
+  && lN_eqb (o_fired a) (o_fired r) && lN_eqb (o_probe a) (o_probe r) && lN_eqb (o_ids a) (o_ids r).
 
 (* every hook of the registry is reached by EmitEvent, and nothing else is *)
 Definition hooks_live (o : obs) : bool := lN_eqb (o_fired o) (o_hooks o).
+
+(* the instance list holds exactly the running instances: every entry of casket.Instances() has servers and each
+   of them answers with the marker of the configuration the entry was made from.  (An instance that a failed
+   start left in the list owns no listener; after the next good reload it is instances[0], the instance every
+   later reload restarts.) *)
+Fixpoint insts_live_aux (ids : list N) (sites : list (list N)) : bool :=
+  match ids, sites with
+  | [], [] => true
+  | i :: ir, s :: sr => negb (Nat.eqb (length s) 0) && forallb (N.eqb i) s && insts_live_aux ir sr
+  | _, _ => false
+  end.
+Definition insts_live (o : obs) : bool :=
+  (N.of_nat (length (o_ids o)) =? o_ninst o) && insts_live_aux (o_ids o) (o_sites o).
 
 Definition bounded (o : obs) : bool :=
   negb (o_res o =? 2) && negb (o_res o =? 3) && negb (o_slow o).
@@ -546,17 +561,17 @@ Definition needs_instance (m : mode) : bool :=
 Fixpoint spec_hist (e : env) (h : list (op * bool)) (prev : obs) (full ref : list obs) : bool :=
   match h, full, ref with
   | [], [], _ => true
-  | (OWrite f hf, _) :: r, o :: fr, _ :: rr => frame prev o && spec_hist (env_set e f hf) r o fr rr
+  | (OWrite f hf, _) :: r, o :: fr, _ :: rr => frame prev o && insts_live o && spec_hist (env_set e f hf) r o fr rr
   | (OAttempt m c, _) :: r, o :: fr, ro :: rr =>
       bounded o
       && (if o_res o =? 0 then true else frame prev o)
       && (if attempt_valid m e c
           then as_if o ro && (if needs_instance m then true else o_res o =? 0)
           else negb (o_res o =? 0))
-      && hooks_live o
+      && hooks_live o && insts_live o
       && spec_hist e r o fr rr
   | (OPanic _ _, _) :: r, o :: fr, _ :: rr =>     (* never a valid attempt: it must fail and leave nothing behind *)
-      bounded o && negb (o_res o =? 0) && frame prev o && hooks_live o && spec_hist e r o fr rr
+      bounded o && negb (o_res o =? 0) && frame prev o && hooks_live o && insts_live o && spec_hist e r o fr rr
   | _, _, _ => false      (* the history was not completed (hang, crash) or the traces are malformed *)
   end.
 
